@@ -658,7 +658,7 @@ def impl(case):
 def _compare_prog(case, io, mo):
     if mo is None or not isinstance(io, dict):
         return None
-    if mo[0] in ('oof', 'stack'):
+    if mo[0] in ('oof', 'stack', 'cyc'):
         return None              # counted in the distribution; the oracle still applies
     if mo[0] == 'stuck':
         return 'the model compiler rejects a program that the implementation compiles'
